@@ -1,6 +1,7 @@
 package props
 
 import (
+	"os"
 	"fmt"
 	"go/token"
 	"go/types"
@@ -593,8 +594,15 @@ func checkSumShape(c *core.Ctx, r *core.Rule) {
 			if strings.Contains(t, "%(len(") && strings.Contains(t, "const:2") && ((strings.HasPrefix(t, "==(") && strings.Contains(t, "const:1") && dc.Truth) || (strings.HasPrefix(t, "!=(") && strings.Contains(t, "const:0") && dc.Truth)) {
 				okOdd = true
 			}
-			if strings.Contains(t, "&(len(") && strings.Contains(t, "const:1") {
-				okOdd = true
+			if strings.Contains(t, "&(") && strings.Contains(t, "len(") && strings.Contains(t, "const:1") {
+				// len&1 != 0 / == 1 on the true edge, == 0 / != 1 on the false edge
+				pos := (strings.HasPrefix(t, "!=(") && strings.Contains(t, "const:0")) || (strings.HasPrefix(t, "==(") && !strings.Contains(t, "const:0"))
+				if pos == dc.Truth {
+					okOdd = true
+				}
+			}
+			if os.Getenv("GPV_DEBUG") != "" {
+				fmt.Println("DEBUG tail cond:", t, dc.Truth)
 			}
 		}
 		if !okOdd {
